@@ -57,6 +57,11 @@ class Infeasible(Exception):
     pass
 
 
+class PathEnd(Exception):
+    """The path is cut here on purpose (e.g. after the arbitrary iteration of a loop with an invariant): its recorded
+    obligations still have to be discharged, but it has no final state."""
+
+
 class Sym:
     __slots__ = ("e", "kind", "meta")
 
